@@ -166,7 +166,7 @@ func (g *dbGen) intVal(f *dbGenField) int64 {
 		return f.min
 	}
 	if span > 2000 || span < 0 {
-		return simrt.Pick(r, int64(-3), -1, 0, 1, 2, 1<<40, -(1 << 40), 1<<62 - 1)
+		return simrt.Pick(r, int64(-3), -1, 0, 1, 2, 1<<40, -(1 << 40), 1<<62-1)
 	}
 	return f.min + r.Int63n(span+1)
 }
